@@ -2,6 +2,7 @@ import SJ.Proofs.Tables
 import SJ.Proofs.Numeric
 import SJ.Proofs.Lookup
 import SJ.Proofs.GoNum
+import SJ.Proofs.GoObject
 /-
 C12 — Lookup, filtered iteration and bulk accessors agree with plain traversal.
 -/
@@ -85,7 +86,7 @@ theorem C12_map (pj : PJ) (p e : Nat) (ms : LMems) (hok : Ok pj (.obj p e ms)) (
     View.objMap pj { lim := e, off := p + 1 } [] (fuelOf pj) = .ok ((toIMems ms).foldl (fun m kv => mapInsert m kv.1 kv.2) []) :=
   objMap_spec_fuelOf pj p e ms hok ht
 
-open SJ.GoSem SJ.GoIter SJ.GoNum in
+open SJ.Generated SJ.GoSem SJ.GoIter SJ.GoNum in
 /-- **The numeric accessors of the model are the meaning of their Go source.** `Generated.goIter_Float`, `…_FloatFlags`,
     `…_Int`, `…_Uint` are the syntax trees the translator prints from `parsed_json.go` on every run (`switch i.t`, the
     bounds check of the value word, the range tests `v >= math.MaxInt64`, `v < math.MinInt64`, `v >= math.MaxUint64`,
@@ -107,5 +108,29 @@ theorem C12_numeric_accessors_follow_source (pj : PJ) (i : Iter) (fuel : Nat) :
     (i.lim ≤ pj.tape.size →
       i.float pj ≠ .panic ∧ i.floatFlags pj ≠ .panic ∧ i.int pj ≠ .panic ∧ i.uint pj ≠ .panic) :=
   go_num_source_tie pj i fuel
+
+open SJ.Generated SJ.GoSem SJ.GoIter SJ.GoObject in
+/-- **`stringByteAt`, `Iter.StringBytes`, `Iter.Bool` and `Object.NextElementBytes` of the model are the meaning of their Go
+    source** (regenerated on every run; `NextElementBytes` with its recursion over NOP words, its call of
+    `stringByteAt` on the shared buffers, the aliased destination `*dst` whose previous content cannot influence the
+    result, `calcNext` twice, the re-slice of the destination). For every document whose buffers have Go-`int` lengths, every
+    view inside the tape and enough fuel: same name bytes, same type, same destination iterator, same advanced object;
+    error ⇔ error; neither side panics or runs forever. `Object.Map`, `Parse`, `ForEach`-free walks and the ordered walk of
+    C02 are built on `nextElementBytes`: their theorems are about this source. -/
+theorem C12_object_walk_follows_source (pj : PJ) (hb : BufOK pj) (n : Int) (off len : UInt64) (i d0 : Iter) (v : View)
+    (rest : Env) (hi : i.lim ≤ pj.tape.size) (hv : v.lim ≤ pj.tape.size) (fuel : Nat) (hf : v.lim - v.off + 1 ≤ fuel) :
+    SimBytes pj (fun e => e.get "pj.lim" = some (.int n))
+      (runFun goFuns goParsedJson_stringByteAt fuel
+        ⟨[("pj.lim", .int n), ("Strings.B", .bytes pj.strings), ("Message", .bytes pj.msg), ("offset", .u64 off),
+          ("length", .u64 len)], pj.tape⟩)
+      (stringByteAt pj off len) ∧
+    (stringByteAt pj off len).safe = true ∧
+    SimBytes pj (fun e => iterAt e "i" = some i)
+      (runFun goFuns goIter_StringBytes fuel ⟨envOf "i" i ++ bufEnv pj, pj.tape⟩) (i.stringBytes pj) ∧
+    SimBool pj.tape i (runFun goFuns goIter_Bool fuel ⟨envOf "i" i ++ rest, pj.tape⟩) i.bool ∧
+    SimNE pj d0 (runFun goFuns goObject_NextElementBytes fuel ⟨neEnv v d0 pj, pj.tape⟩)
+      (View.nextElementBytes pj v fuel) ∧
+    (View.nextElementBytes pj v fuel).safe = true :=
+  go_object_source_tie pj hb n off len i d0 v rest hi hv fuel hf
 
 end SJ.Properties.C12
